@@ -308,6 +308,52 @@ fn run(ctx: &mut Ctx) {
             }
         }
     });
+    // ---- characters that are a documented ASCII character once truncated to their low byte (U+0142 -> 'B', ...), or once
+    // case-folded / width-folded: each character of each of ~400 valid names replaced by such a look-alike
+    ctx.cases("char-aliases", 16, |ctx, part, _rng| {
+        let mut valid: Vec<String> = vec!["ATAT".into(), "TRBA".into(), "MCVX".into()];
+        for b in A16.iter() {
+            for d in ['0', '9', 'A', 'F', 'G', 'V'] {
+                valid.push(format!("C{}{}", b, d));
+                valid.push(format!("B{}{}", b, d));
+            }
+        }
+        for b in PWB_BOARDS.iter().step_by(3) {
+            valid.push(format!("PC{}", b.0));
+        }
+        for n in 1..=4 {
+            valid.push(format!("CBF{}", n));
+        }
+        for (k, name) in valid.iter().enumerate() {
+            if k as u64 % 16 != part {
+                continue;
+            }
+            let chars: Vec<char> = name.chars().collect();
+            for pos in 0..chars.len() {
+                let c = chars[pos] as u32;
+                let mut alts: Vec<u32> = [1u32, 2, 3, 5, 0x10, 0x1F, 0x20, 0xFF, 0x100, 0x1F6, 0x10FF].iter().map(|k| c + 256 * k).collect();
+                alts.push(0xFF00 + c - 0x20); // fullwidth form
+                alts.push(c + 0x10000);
+                alts.push(c | 0x80);
+                if (chars[pos]).is_ascii_uppercase() {
+                    alts.push(c + 32); // lower case
+                }
+                for a in alts {
+                    let Some(ch) = char::from_u32(a) else { continue };
+                    let mut v = chars.clone();
+                    v[pos] = ch;
+                    let st: String = v.into_iter().collect();
+                    ctx.eval();
+                    let e = if st.len() == 4 && st.is_ascii() { spec(&[st.as_bytes()[0], st.as_bytes()[1], st.as_bytes()[2], st.as_bytes()[3]]) } else { None };
+                    match guard(|| (got(&st), specific_ok(&st, &got(&st)))) {
+                        Ok((g, true)) if g == e => ctx.count("look-alike names handled per the grammar"),
+                        Ok((g, ok)) => ctx.violation("undocumented bank name accepted", format!("{:?} (a look-alike of {:?}): got {:?}, grammar {:?}, specific parsers consistent: {}", st, name, g, e, ok), json!({"name": st, "bytes": hex(st.as_bytes())})),
+                        Err(p) => ctx.panic_violation("bank name parser", &p, json!({"name": st, "bytes": hex(st.as_bytes())})),
+                    }
+                }
+            }
+        }
+    });
     // ---- run numbers
     let thorough = !ctx.quick();
     let mut runs: Vec<u32> = (0..=20000u32).collect();
@@ -416,6 +462,39 @@ fn run(ctx: &mut Ctx) {
             }
         }
         ctx.count("boards checked for history independence of the maps");
+    });
+    // ---- the maps asked from 8 threads at once, each thread for its own run number (runs on both sides of every map
+    // epoch): every answer against the reference table of its run. State shared between threads must be updated as one.
+    ctx.cases("concurrent", ctx.tier.pick(8, 64), |ctx, i, rng| {
+        let runs8: Vec<u32> = vec![5000, 10418, u32::MAX, 12000, 4418, 10417, 20000, 11500];
+        let a = AfterId::try_from(['A', 'B', 'C', 'D'][(i % 4) as usize]).unwrap();
+        let pc = PadChannelId::try_from(1 + rng.below(72) as u16).unwrap();
+        let boards = pwb.clone();
+        // reference, one run at a time, on this thread (composition of the two component maps)
+        let reference: Vec<Vec<Option<(usize, usize)>>> = runs8.iter().map(|r| boards.iter().map(|b| TpcPwbPosition::try_new(*r, *b).ok().map(|bp| { let tp = TpcPadPosition::new(bp, PwbPadPosition::try_new(*r, a, pc).unwrap()); (usize::from(tp.column), usize::from(tp.row)) })).collect()).collect();
+        let rounds = ctx.tier.pick(300, 1000);
+        let bad: Vec<Option<String>> = std::thread::scope(|s| {
+            let hs: Vec<_> = runs8.iter().enumerate().map(|(k, r)| {
+                let (boards, reference, r) = (&boards, &reference, *r);
+                s.spawn(move || {
+                    for round in 0..rounds {
+                        for (bi, b) in boards.iter().enumerate() {
+                            let got = TpcPadPosition::try_new(r, *b, a, pc).ok().map(|p| (usize::from(p.column), usize::from(p.row)));
+                            if got != reference[k][bi] {
+                                return Some(format!("run {} board {} (round {}): got {:?}, reference {:?}", r, b.name(), round, got, reference[k][bi]));
+                            }
+                        }
+                    }
+                    None
+                })
+            }).collect();
+            hs.into_iter().map(|h| h.join().unwrap_or(Some("thread panicked".into()))).collect()
+        });
+        ctx.eval_n(8 * rounds as u64 * boards.len() as u64);
+        match bad.into_iter().flatten().next() {
+            Some(b) => ctx.violation("pad position of a (run, board, chip, channel) depends on what other threads ask at the same time", b, json!({"runs": runs8})),
+            None => ctx.count_n("concurrent lookups agreeing with the reference", 8 * rounds as u64 * boards.len() as u64),
+        }
     });
     // names with a sign / leading zeros between the prefix and the number (integer-parsing shortcuts accept them)
     ctx.cases("numeric-names", 1, |ctx, _i, _rng| {
